@@ -70,7 +70,7 @@ QDialog {
 """
 
 
-def translate(env, qml_text, type_name, workdir, no_dyn=False, hash_seed=1, incremental=True, prev_qml=None):
+def translate(env, qml_text, type_name, workdir, no_dyn=False, hash_seed=1, incremental=True, prev_qml=None, wfault=None):
     """run the real binary on one document -> dict(exit, stderr, ui, header).
     The header is emitted the way a build system gets it: by the second of two invocations of one process over several
     sources, where an earlier-named source (a fixed companion) is already up to date on disk."""
@@ -102,8 +102,33 @@ def translate(env, qml_text, type_name, workdir, no_dyn=False, hash_seed=1, incr
                 prev[key] = open(p, encoding="utf-8", errors="replace").read()
         with open(src, "w", encoding="utf-8") as f:
             f.write(qml_text)
-    res = kernel.run(env, workdir, argv, hash_seed=hash_seed, dirent_seed=1, io_dir=os.path.join(workdir, "io"))
-    out = {"exit": res.exit_status, "signal": res.signal, "stderr": res.stderr, "ui": None, "header": None, "prev": prev}
+    faulted = None
+    if wfault is not None:
+        # a write of an output fails (or is cut short and then fails) in the invocation that emits the header: the run may
+        # fail - then the build runs it again - but what a run that says 0 leaves behind is what gets compiled and driven
+        import shutil
+        import subprocess
+        twin = workdir.rstrip("/") + "~"
+        if os.path.exists(twin):
+            shutil.rmtree(twin)
+        subprocess.run(["cp", "-a", workdir, twin], check=True)
+        g = kernel.run(env, twin, argv, hash_seed=hash_seed, dirent_seed=1, io_dir=os.path.join(twin, "io"))
+        shutil.rmtree(twin)
+        pick, kind, n = wfault
+        cands = [c for c in g.calls if c.name == "write" and c.is_mutation() and (c.fdpath or "").startswith(twin + "/") and (c.length or 0) > 1]
+        if cands:
+            c = cands[pick % len(cands)]
+            if kind == "SHORT_THEN_ENOSPC":
+                faults = [(c.idx, "SHORT_WRITE", max(1, min(n, c.length - 1))), (c.idx + 1, "ERR", "ENOSPC")]
+            else:
+                faults = [(c.idx, "ERR", kind)]
+            fr = kernel.run(env, workdir, argv, hash_seed=hash_seed, dirent_seed=1, faults=faults, io_dir=os.path.join(workdir, "io"))
+            faulted = {"exit": fr.exit_status, "fired": sum(1 for x in fr.calls if x.fault), "kind": kind}
+    if faulted is not None and faulted["exit"] == 0:
+        res = fr          # the run said 0: a build goes on with what it left
+    else:
+        res = kernel.run(env, workdir, argv, hash_seed=hash_seed, dirent_seed=1, io_dir=os.path.join(workdir, "io"))
+    out = {"exit": res.exit_status, "signal": res.signal, "stderr": res.stderr, "ui": None, "header": None, "prev": prev, "faulted": faulted}
     for key, fn in (("ui", low + ".ui"), ("header", "uisupport_" + low + ".h")):
         p = os.path.join(workdir, fn)
         if os.path.exists(p):
